@@ -128,6 +128,7 @@ struct Proc {
     std::ostream out;
     UCIProtocol uci;
     std::thread th;
+    bool anyGo = false;        // a go command was handled since RESET (limit members are assigned)
     Proc() : out(&buf), uci(in, out) {
         th = std::thread([this]() { uci.engineThread.mainLoop(); });
         cmd("isready");
@@ -169,6 +170,10 @@ static void resetAll(Proc& p) {
     for (auto& e : p.ec().et->evalHash) e = Evaluate::EvalHashData();
     p.uci.engineThread.clearHistory = false;
     p.ec().randomSeed = 0;
+    // limit members: uninitialised in a fresh engine (or -1 where they have in-class defaults)
+    p.ec().minTimeLimit = p.ec().maxTimeLimit = p.ec().earlyStopPercentage = p.ec().maxDepth = p.ec().maxNodes = -1;
+    p.ec().searchMoves.clear();
+    p.anyGo = false;
 }
 
 static void dumpFrame(Proc& p, std::ostream& os) {
@@ -181,6 +186,12 @@ static void dumpFrame(Proc& p, std::ostream& os) {
        << (UciParams::analyseMode->getBoolPar() ? 1 : 0) << ',' << UciParams::analyzeContempt->getIntPar() << ','
        << (UciParams::analysisAgeHash->getBoolPar() ? 1 : 0) << ',' << (UciParams::autoContempt->getBoolPar() ? 1 : 0) << ','
        << UciParams::strength->getIntPar() << ',' << (UciParams::limitStrength->getBoolPar() ? 1 : 0);
+    // limit members of EngineControl as the last go command left them (uninitialised before the first)
+    if (p.anyGo)
+        os << " lim=" << p.ec().minTimeLimit << ',' << p.ec().maxTimeLimit << ',' << p.ec().earlyStopPercentage << ','
+           << p.ec().maxDepth << ',' << p.ec().maxNodes << ',' << p.ec().searchMoves.size();
+    else
+        os << " lim=?";
 }
 
 static bool ttEmpty(Proc& p, u64 limit) {
@@ -263,6 +274,7 @@ static int ops() {
             int before = p.buf.depthLines.load();
             p.cmd(posCmd);
             p.cmd(goCmd);
+            p.anyGo = true;
             if (mode == "stop" || mode == "tbstop") {
                 // `go infinite`: the stop must not depend on the wall clock (an early stop aborts an
                 // on-demand tablebase generation, F4): wait for the first `info depth` line, which
@@ -407,7 +419,11 @@ static int ops() {
                     else p.tt().clear();
                 }
             }
-            std::cout << "V " << g << ' ' << e << ' ' << kk << ' ' << t << " evals=" << a << ',' << b << ',' << c << '\n';
+            // l: every go assigns all limit members (maxNodes of an earlier `go nodes` is gone)
+            p.cmd("position startpos"); p.cmd("go nodes 5"); p.uci.engineThread.waitStop();
+            p.cmd("go depth 1"); p.uci.engineThread.waitStop();
+            int l = (p.ec().maxNodes == -1 && p.ec().maxDepth == 1) ? 1 : 0;
+            std::cout << "V " << g << ' ' << e << ' ' << kk << ' ' << t << ' ' << l << " evals=" << a << ',' << b << ',' << c << '\n';
             resetAll(p);
         } else {
             std::cerr << "bad op: " << line << '\n';
